@@ -311,7 +311,7 @@ NFKC_SIG = "ast-diff:identifier-nfkc"
 
 
 def classify(text, mode, sig):
-    """-> (key, minimal text, mode of the minimal text)."""
+    """-> (key, minimal text, mode of the minimal text, signature of the minimal text)."""
     m = mode
     if mode != "exec" and evaluate(text, "exec") == sig:
         m = "exec"  # not mode specific: classify along the exec derivation so all modes share the key
@@ -320,13 +320,13 @@ def classify(text, mode, sig):
         # normalising exactly that in the input makes the input pass
         fixed = unicodedata.normalize("NFKC", text)
         if fixed != text and evaluate(fixed, m) == "ok":
-            mt = "\uff41"
+            mt = "\uff58"
             if evaluate(mt, m) == sig:
-                return f"{sig} @ {json.dumps(mt, ensure_ascii=True)}", mt, m
-    mt = _minimiser().minimise(text, m, sig)
+                return f"{sig} @ {json.dumps(mt, ensure_ascii=True)}", mt, m, sig
+    mt, msig = _minimiser().minimise(text, m, sig)
     shown = mt.rstrip("\n") if mt.rstrip("\n") else mt
     tag = "" if m == "exec" else f"[{m}] "
-    return f"{sig} @ {tag}{json.dumps(shown, ensure_ascii=True)}", mt, m
+    return f"{msig} @ {tag}{json.dumps(shown, ensure_ascii=True)}", mt, m, msig
 
 
 # ----------------------------------------------------------------------------- exploration
@@ -393,11 +393,11 @@ def _explore(item):
             digests.append(_digest(m, t_m))
             if r != "ok":
                 stats["fail_inputs"] += 1
-                key, mt, mm = classify(t_m, m, r)
+                key, mt, mm, msig = classify(t_m, m, r)
                 f = fails.get(key)
                 ex = (len(t_m), t_m, m, rule)
                 if f is None:
-                    fails[key] = [1, ex, mt, mm, r]
+                    fails[key] = [1, ex, mt, mm, msig]
                 else:
                     f[0] += 1
                     if ex < f[1]:
